@@ -539,15 +539,19 @@ func checkCoreFanouts(c *Ctx) {
 			checkFanoutWorker(c, "fanout", p.BodyOf(p.Func(w)), semNamesCore)
 		}
 		cb := p.BodyOf(p.Func(in.collector))
-		for _, ch := range in.chans {
-			unb, pos, found := makeChanIsUnbuffered(cb, ch)
-			if !found {
-				c.fail("fanout.collector-channels-unbuffered", in.collector+":"+ch, p.Pos(cb.Block.Pos()), "channel "+ch+" is no longer created by make in the collector")
+		chs := collectorChannels(cb)
+		if len(chs) < len(in.chans) {
+			c.fail("fanout.collector-channels-unbuffered", in.collector+":channels", p.Pos(cb.Block.Pos()), "the collector selects on "+itoa(len(chs))+" local channels, expected the "+itoa(len(in.chans))+" confirmed by hand (result, error, done): its shape changed")
+		}
+		for _, ch := range chs {
+			key := in.collector + ":chan " + ch.elem
+			if !ch.made {
+				c.fail("fanout.collector-channels-unbuffered", key, p.Pos(ch.pos), "a channel the collector selects on is not created by make in the collector")
 				continue
 			}
-			c.check(unb, "fanout.collector-channels-unbuffered", in.collector+":"+ch, p.Pos(pos),
+			c.check(ch.unbuffered, "fanout.collector-channels-unbuffered", key, p.Pos(ch.pos),
 				"channel is unbuffered: a worker's send completes only when the collector received it, i.e. before the worker's slot is released",
-				"channel "+ch+" is buffered: a worker can complete its send and release its slot before the collector received the value, the coordinator then signals done and the collector's select may take done first — the result or error is lost")
+				"the chan "+ch.elem+" the collector selects on is buffered: a worker can complete its send and release its slot before the collector received the value, the coordinator then signals done and the collector's select may take done first — the result or error is lost")
 		}
 		checkCollectorErrorWins(c, "fanout.error-beats-done", cb)
 		// every go target of the coordinator is a checked worker
